@@ -20,6 +20,11 @@ CHECKS = {
    technique='TLA+ spec (specs/Channel) with rogue peer and liveness under weak fairness, checked with TLC; behaviours replayed into a real pair; raw peer with extreme window/packet sizes and data beyond the window',
    text='TLC exhausts window accounting invariants (never send beyond granted window / packet size, never accept beyond advertised window incl. while paused) with a peer that ignores the window, and the liveness property NoDeadlock under weak fairness; honest and rogue behaviours are replayed into the real code with state comparison; a raw peer drives a real server with window/packet size in {0,1,2,2^32-1} and with excess data in five shapes, paused and unpaused.',
    note='Trusted: TLC, virtual loop, raw peer built on asyncssh transport for its own side only. Liveness on the code is checked as drain-completeness, not as a temporal property.'),
+ 'C09': dict(
+   category='model_checking', design_ref='DESIGN.md §5.9',
+   technique='TLA+ spec (specs/Lifecycle) model-checked with TLC incl. liveness; behaviours replayed into a real pair with state comparison; crash-point enumeration of a scripted session at every packet boundary',
+   text='TLC exhausts the Lifecycle specification (open/confirm/failure, request, EOF, CLOSE handshake, close/abort, connection close/abort, transport cut at any moment, coalesced packets, deferred clean-up callbacks; 1-2 channels) against AllWaitersResolved/CloseOnceAndLast/LegalOrder/NoChannelLeft and the liveness property Terminates; sampled behaviours are replayed into the real code with callback logs, waiter states and channel states compared step by step; a scripted client program with stream, drain, SFTP and wait_closed waiters is re-run with 7 fault kinds at every packet boundary and must leave no pending task when the loop goes idle.',
+   note='Trusted: TLC, virtual loop (idle detection = hung-waiter oracle), hooks for packet boundaries. Both peers are asyncssh. Bounded: <=2 channels, <=6 operations, one scripted crash-point scenario.'),
 }
 NOT_YET = 'check under construction in this round; see DESIGN.md §9'
 
